@@ -152,6 +152,9 @@ def execute(scn):
         for inf in infos:
             if inf.n_retry and not inf.granted:
                 viol.append(V("R3", "retry granted without a budget token", {"call": cid, "attempt": inf.k}))
+            if inf.granted and not inf.n_retry and inf.first_true is None:
+                viol.append(V("R3", "budget token taken although no retry was granted (phantom grant: later refusals happen while the window is not full of retries)",
+                              {"call": cid, "attempt": inf.k, "holds": sorted(inf.S)}))
             if inf.n_retry and len(inf.granted) > 1:
                 viol.append(V("R3", "more than one token taken for one retry", {"call": cid, "attempt": inf.k}))
             exhausted = [e for e in inf.post if e["ev"] == "METRIC" and e["event"] == "budget_exhausted"]
